@@ -564,6 +564,7 @@ pub struct Outcome {
 pub fn run_property<P: Prop>(tier: Tier, seed: u64) -> Outcome {
     let t0 = Instant::now();
     install_panic_hook();
+    crate::common::THOROUGH.store(tier == Tier::Thorough, Ordering::Relaxed);
     let kfs = load_known_findings(P::ID);
     let active: BTreeSet<String> = kfs.iter().map(|k| k.id.clone()).collect();
     let mut violations: Vec<(String, String)> = vec![]; // (replay path, reason)
@@ -773,6 +774,7 @@ pub fn replay_cmd<P: Prop>(path: &Path) -> Outcome {
                 let per_worker = h.get("per_worker").and_then(|x| x.as_u64()).unwrap_or(1) as u32;
                 let seed = h.get("seed").and_then(|x| x.as_u64()).unwrap_or(0);
                 let tier = if h.get("tier").and_then(|x| x.as_str()) == Some("thorough") { Tier::Thorough } else { Tier::Quick };
+                crate::common::THOROUGH.store(tier == Tier::Thorough, Ordering::Relaxed);
                 let res = std::thread::scope(|sc| {
                     std::thread::Builder::new()
                         .stack_size(64 << 20)
